@@ -194,7 +194,8 @@ def shards(tier, seed):
     n = 30000 if tier == 'quick' else 600000
     k = 16 if tier == 'quick' else 48
     return [{'part': 'docs', 'n': n // k + 1, 'sub': i} for i in range(k)] + \
-        [{'part': 'scalars', 'n': 4000 if tier == 'quick' else 60000, 'sub': j} for j in range(2)]
+        [{'part': 'scalars', 'n': 4000 if tier == 'quick' else 60000, 'sub': j} for j in range(2)] + \
+        [{'part': 'cold-start', 'rounds': 10 if tier == 'quick' else 100}]
 
 
 def scalar_part(spec, ctx):
@@ -238,6 +239,18 @@ def scalar_part(spec, ctx):
                                    'features': sorted(D.features(n) | {'ver=' + ver, 'form=' + form})},
                                   'parse_scalar(%s): %s %s' % (json.dumps(obj)[:200], d[0], d[2]), {'scalar': D.enc(n), 'ver': ver})
                     break
+                if n[0] in ('list', 'dict', 'grid', 'xstr'):
+                    # the caller does what it likes with the result (here: wrecks it); the same input read again is unaffected
+                    hs.wreck(back)
+                    again = hszinc.parse_scalar(obj if form == 'object' else json.dumps(obj), mode=hs.JSON, version=ver)
+                    ctx.count('scalars read twice')
+                    d = D.diff(n, hs.from_hs(again), True)
+                    if d:
+                        ctx.violation({'part': 'history', 'format': 'json', 'position': 'scalar', 'kind': D.kind(n), 'symptom': 'second-reading-differs',
+                                       'features': ['entry=parse_scalar', 'form=' + form]},
+                                      'parse_scalar(%s) read again after the caller changed the first result: %s %s' % (
+                                          json.dumps(obj)[:200], d[0], d[2]), {'scalar': D.enc(n), 'ver': ver})
+                        break
             except Exception as e:   # noqa
                 ctx.violation({'part': 'scalar', 'format': 'json', 'position': 'scalar', 'kind': D.kind(n), 'symptom': 'parse-raises:' + type(e).__name__,
                                'features': sorted(D.features(n) | {'ver=' + ver, 'form=' + form})},
@@ -246,7 +259,24 @@ def scalar_part(spec, ctx):
     ctx.sample({'scalar_api': 'parse_scalar(obj | text, mode=MODE_JSON, version=...)', 'example': json.dumps(obj)[:200]})
 
 
+def cold_start_part(spec, ctx):
+    """The process's first zone lookups, from six threads at once, are readings of documents with named zones."""
+    import pytz
+    from vf.props import c17
+
+    def work(Z, tz, t):
+        loc = pytz.utc.localize(t).astimezone(tz)
+        n = ('dt', (loc.year, loc.month, loc.day, loc.hour, loc.minute, loc.second, loc.microsecond),
+             int(loc.utcoffset().total_seconds()), Z)
+        g = ('grid', '3.0', (('when', n),), (('ts', ()),), ((('ts', n),),))
+        sym, detail, art = judge_doc([g], 11, None, 'str')
+        return [(sym, '%s | text %r' % (detail, art['text'][:160])) if sym else None]
+    c17.cold_start(spec, ctx, work, {'part': 'cold-start', 'format': 'json', 'position': 'cell', 'kind': 'dt'})
+
+
 def run_shard(spec, ctx):
+    if spec['part'] == 'cold-start':
+        return cold_start_part(spec, ctx)
     if spec['part'] == 'scalars':
         return scalar_part(spec, ctx)
     r = random.Random(ctx.seed * 1000003 + 505 + spec['sub'])
@@ -289,6 +319,8 @@ def run_shard(spec, ctx):
 
 
 def replay(case, ctx):
+    if case.get('cold_start'):
+        return cold_start_part({'part': 'cold-start', 'rounds': 30}, ctx)
     if 'scalar' in case:
         import hszinc
         n = D.dec(case['scalar'])
